@@ -157,8 +157,15 @@ class MetadataManager:
             self.lock_provider.acquire()
 
             try:
-                # PHASE 1: Validation (inside lock to prevent races)
-                current = self.refresh()
+                # PHASE 1: Validation (inside lock to prevent races). Remember WHICH
+                # metadata file was validated: the commit point below must replace
+                # exactly the pointer to that file.
+                validated_info = self._current_version_info()
+                current = (
+                    self._read_metadata_file(f"{self.metadata_path}/{validated_info[1]}")
+                    if validated_info is not None
+                    else None
+                )
 
                 # Check UUID consistency
                 if current and current.table_uuid != base_metadata.table_uuid:
@@ -203,6 +210,21 @@ class MetadataManager:
                             filesystem_version, previous_metadata_file = parsed
                     except FileNotFoundError:
                         hint_etag = None
+                        parsed = None
+                    # The ETag for the conditional PUT comes from THIS read, which is
+                    # later than the validation read. If another committer flipped
+                    # the hint in between (a stale lock holder resuming, a lock that
+                    # gives no exclusion), a PUT keyed to this ETag would succeed and
+                    # silently overwrite that acknowledged commit with metadata built
+                    # on the older base. The hint must still name the validated file.
+                    if (
+                        parsed is not None
+                        and validated_info is not None
+                        and parsed[1] != validated_info[1]
+                    ):
+                        raise ConcurrentModificationException(
+                            "Version hint changed between validation and the commit point; retrying"
+                        )
                 if filesystem_version is None:
                     info = self._current_version_info()
                     if info is not None:
